@@ -472,8 +472,10 @@ func readDnsMsgFromBufio(reader *bufio.Reader, timeout time.Duration, conn net.C
 		return nil, 0, fmt.Errorf("DNS message too small: %d bytes (min 12)", length)
 	}
 
-	// Now read and consume the full message (length prefix + data)
-	fullData, err := reader.Peek(int(2 + length))
+	// Now read and consume the full message (length prefix + data).
+	// The sum is computed in int: 2 + length wraps in 16 bits for lengths >= 0xFFFE.
+	total := 2 + int(length)
+	fullData, err := reader.Peek(total)
 	if err != nil {
 		return nil, 0, err
 	}
@@ -493,12 +495,12 @@ func readDnsMsgFromBufio(reader *bufio.Reader, timeout time.Duration, conn net.C
 	}
 
 	// Consume the data by discarding it
-	_, err = reader.Discard(int(2 + length))
+	_, err = reader.Discard(total)
 	if err != nil {
 		return nil, 0, err
 	}
 
-	return &msg, int(2 + length), nil
+	return &msg, total, nil
 }
 
 // bufioConn wraps a net.Conn with a bufio.Reader, allowing buffered data
